@@ -185,6 +185,7 @@ static void run_exec_here(const uint8_t* prefix, int nprefix, Exec* x);
 #include <sys/wait.h>
 /* drivers about first use (lazy initialisation, caches) need a fresh process per execution: library statics
  * cannot be reset, and an execution that inherits the previous one's state would not be a function of its schedule */
+static int g_in_child;
 static void run_exec(const uint8_t* prefix, int nprefix, Exec* x)
 {
     if (!g_drv->fresh_process) { run_exec_here(prefix, nprefix, x); return; }
@@ -192,7 +193,7 @@ static void run_exec(const uint8_t* prefix, int nprefix, Exec* x)
     if (!shared) { shared = mmap(NULL, sizeof(Exec) + sizeof(TRes) * MAXT, PROT_READ | PROT_WRITE, MAP_SHARED | MAP_ANONYMOUS, -1, 0); shres = (TRes*)(shared + 1); }
     fflush(stdout);
     pid_t pid = fork();
-    if (pid == 0) { run_exec_here(prefix, nprefix, shared); memcpy(shres, g_res, sizeof(TRes) * MAXT); _exit(0); }
+    if (pid == 0) { g_in_child = 1; run_exec_here(prefix, nprefix, shared); memcpy(shres, g_res, sizeof(TRes) * MAXT); _exit(0); }
     int st = 0; waitpid(pid, &st, 0);
     if (!WIFEXITED(st) || WEXITSTATUS(st) != 0) { memset(x, 0, sizeof *x); x->truncated = 1; x->outcome = 0xDEADull; g_execs++; return; }
     memcpy(x, shared, sizeof *x); memcpy(g_res, shres, sizeof(TRes) * MAXT);
@@ -223,7 +224,16 @@ static void run_exec_here(const uint8_t* prefix, int nprefix, Exec* x)
         int i = x->npts;
         if (i >= MAXPTS) { x->truncated = 1; break; }
         int c = i < nprefix ? prefix[i] : 0;
-        if (c >= nen) { fprintf(stderr, "divergent replay: choice %d of %d at point %d\n", c, nen, i); exit(2); }
+        if (c >= nen) {
+            /* the scheduler, the drivers and the thunks are deterministic and every driver resets what it owns: a schedule
+             * prefix that cannot be replayed means an execution depended on the executions before it - state that survives
+             * inside the code under test. Reported as such (the planted-bug self-test has no such state and must replay). */
+            if (!g_drv || g_drv == &DRIVERS[0] || g_in_child) { fprintf(stderr, "divergent replay: choice %d of %d at point %d\n", c, nen, i); exit(2); }
+            char key[200]; snprintf(key, sizeof key, "hidden state: executions of '%s' depend on the executions before them", g_drv->name);
+            violation("C16", key, "O:0", "replaying a schedule prefix diverged at point %d (choice %d of %d enabled threads): the same calls on freshly set-up objects took another path than in the previous execution", i, c, nen);
+            printf("I\tdriver '%s': exploration stopped at a divergent replay\n", g_drv->name);
+            emit_counters("C16"); fflush(stdout); _exit(0);
+        }
         x->pt[i].nen = (uint8_t)nen; x->pt[i].running_enabled = (uint8_t)running_enabled; x->pt[i].chosen = (uint8_t)en[c];
         x->choice[i] = (uint8_t)c;
         x->npts++;
@@ -244,6 +254,8 @@ static int g_bad_schedules;
 static char g_first_bad[600];
 static int g_maxexec_hit;
 static uint64_t g_exec_cap = 3000000;
+static uint64_t g_drv_e0; static double g_drv_deadline, g_drv_budget = 120.0;
+static double now_s(void) { struct timespec ts; clock_gettime(CLOCK_MONOTONIC, &ts); return (double)ts.tv_sec + 1e-9 * (double)ts.tv_nsec; }
 
 static void check_exec(const Exec* x, int di)
 {
@@ -264,6 +276,9 @@ static void explore(const uint8_t* prefix, int nprefix, int di)
 {
     static Exec pool[64]; static int depth;
     if (g_execs >= g_exec_cap) { g_maxexec_hit = 1; return; }
+    /* a driver whose schedules already differ from the sequential reference is not explored beyond 400 executions
+     * (the verdict is settled), and no driver beyond its wall-clock budget: both are reported as a cap, never as coverage */
+    if ((g_bad_schedules && g_execs - g_drv_e0 > 400) || (g_drv_deadline && (g_execs & 63) == 0 && now_s() > g_drv_deadline)) { g_maxexec_hit = 1; return; }
     Exec* x = depth < 64 ? &pool[depth] : NULL;
     if (!x) { g_maxexec_hit = 1; return; }
     depth++;
@@ -316,6 +331,7 @@ static int run_driver(int di, int nthr, int bound, int report)
     g_drv = &DRIVERS[di]; g_nthr = nthr; g_bound = bound;
     g_noutcomes = 0; g_bad_schedules = 0; g_first_bad[0] = 0; g_maxexec_hit = 0;
     uint64_t e0 = g_execs, p0 = g_points_total, h0 = g_hooks;
+    g_drv_e0 = g_execs; g_drv_deadline = report ? now_s() + g_drv_budget : 0;
     sequential_reference();
     uint8_t none[1];
     explore(none, 0, di);
@@ -329,7 +345,7 @@ static int run_driver(int di, int nthr, int bound, int report)
             char csb[700]; snprintf(csb, sizeof csb, "S:%s", g_first_bad);
             violation("C16", key, csb, "%d of %llu schedules (%d threads, <= %d preemptions) give per-thread results or buffers different from the sequential reference; %d distinct outcomes", g_bad_schedules, (unsigned long long)execs, nthr, bound, g_noutcomes);
         }
-        if (g_maxexec_hit) printf("I\tdriver %d capped at %llu executions\n", di, (unsigned long long)g_exec_cap);
+        if (g_maxexec_hit) printf("I\tdriver %d capped after %llu executions\n", di, (unsigned long long)execs);
     }
     return g_bad_schedules;
 }
@@ -461,7 +477,7 @@ int main(int argc, char** argv)
 {
     int thorough = 0; int extent = 0; const char* rep = NULL; int only = -1;
     for (int i = 1; i < argc; i++) {
-        if (!strcmp(argv[i], "--tier")) thorough = !strcmp(argv[++i], "thorough");
+        if (!strcmp(argv[i], "--tier")) { thorough = !strcmp(argv[++i], "thorough"); if (thorough) g_drv_budget = 900.0; }
         else if (!strcmp(argv[i], "--case")) rep = argv[++i];
         else if (!strcmp(argv[i], "--driver")) only = atoi(argv[++i]);
         else if (!strcmp(argv[i], "--extent")) extent = 1;
